@@ -160,7 +160,7 @@ class C07(Check):
                         own[1] = pm + rng.choice([rng.uniform(0.1001, 0.5), rng.uniform(0.5, 15), rng.uniform(15, 80), 0.1 + 1e-9])
                 if rng.random() < 0.5:
                     own[2] = rng.choice([1.0, 0.5, 0.8, round(rng.uniform(0.02, 1.0), 4), 0.333])
-                D = rng.choice([0.0, 0.0, rng.uniform(1e-5, 1e-2), rng.uniform(0.01, 0.5)])
+                D = rng.choice([0.0, 0.0, rng.uniform(1e-5, 1e-2), rng.uniform(0.01, 0.5), -rng.uniform(1e-4, 0.2)])  # < 0: an inflow junction
                 elev = rng.choice([0.0, 0.0, round(rng.uniform(-20, 120), 2)])
                 specs.append({"own": tuple(own), "D": D, "elev": elev})
             if narrow:
@@ -177,8 +177,10 @@ class C07(Check):
         for case in self._gen_cases(ctx, n):
             k = rng.randrange(len(case["specs"]))
             pmin, pnom, e = eff(case["specs"][k]["own"], case["glob"])
-            attr = rng.choice(["minimum_pressure", "required_pressure", "pressure_exponent"])
-            if attr == "minimum_pressure":
+            attr = rng.choice(["minimum_pressure", "required_pressure", "pressure_exponent", "elevation"])
+            if attr == "elevation":
+                val = case["specs"][k]["elev"] + rng.choice([3.0, -2.0, 17.5, 0.04])
+            elif attr == "minimum_pressure":
                 val = pnom - rng.choice([0.2, 1.0, 0.11, rng.uniform(0.12, max(0.13, pnom - pmin + 3))])
             elif attr == "required_pressure":
                 val = max(pmin, 0.0) + rng.choice([0.11, 0.5, rng.uniform(0.2, 40.0), 0.07])
@@ -223,11 +225,14 @@ class C07(Check):
                 node = wn.get_node("J%d" % chg["node"])
                 setattr(node, chg["attr"], chg["value"])
                 upd.update(m, wn, node, chg["attr"])
-                i = ("minimum_pressure", "required_pressure", "pressure_exponent").index(chg["attr"])
                 specs = [dict(s_) for s_ in case["specs"]]
-                own = list(specs[chg["node"]]["own"])
-                own[i] = chg["value"]
-                specs[chg["node"]]["own"] = tuple(own)
+                if chg["attr"] == "elevation":
+                    specs[chg["node"]]["elev"] = chg["value"]
+                else:
+                    i = ("minimum_pressure", "required_pressure", "pressure_exponent").index(chg["attr"])
+                    own = list(specs[chg["node"]]["own"])
+                    own[i] = chg["value"]
+                    specs[chg["node"]]["own"] = tuple(own)
                 case = dict(case, specs=specs)
         except Exception as err:
             # a refused build: the Lean build model must refuse at least one junction's parameters, too
@@ -446,24 +451,31 @@ class C07(Check):
             prev = "R"
             nj = rng.randint(2, 5)
             conf = {}
+            entries = {}
             for k in range(nj):
                 nm = "J%d" % k
                 el = rng.uniform(0, H + 8)
-                D = rng.choice([0.0, rng.uniform(0.002, 0.03)])
+                D = rng.choice([0.0, rng.uniform(0.002, 0.03), rng.uniform(0.002, 0.03), -rng.uniform(0.002, 0.02)])
                 dpat = None
                 if rng.random() < 0.3:
                     # the requested demand changes from step to step (pattern), incl. a step with zero demand
                     dpat = "dp%d" % k
-                    wn.add_pattern(dpat, [1.0, rng.choice([0.0, 0.5, 1.7]), rng.choice([0.3, 2.0])])
+                    wn.add_pattern(dpat, [1.0, rng.choice([0.0, 0.5, 1.7, -0.8]), rng.choice([0.3, 2.0, -1.5])])
                     ctx.count("sim_demand_pattern")
                 wn.add_junction(nm, base_demand=D, elevation=el, demand_pattern=dpat)
                 j = wn.get_node(nm)
-                if dpat is None and rng.random() < 0.35:
-                    # several demand entries; the requested demand is their sum (the first entry may well be zero)
+                entries[nm] = [(D, list(wn.get_pattern(dpat).multipliers) if dpat else None)]
+                if rng.random() < 0.35:
+                    # several demand entries, with and without patterns, of either sign; the requested demand is their sum at
+                    # the time (the first entry may well be zero, the sum may be negative at some steps)
                     for _e in range(rng.randint(1, 2)):
-                        extra = rng.uniform(0.002, 0.02)
-                        j.add_demand(extra, None, rng.choice([None, "cat"]))
-                        D += extra
+                        extra = rng.choice([rng.uniform(0.002, 0.02), -rng.uniform(0.002, 0.03)])
+                        xpat = None
+                        if rng.random() < 0.5:
+                            xpat = "xp%d_%d" % (k, _e)
+                            wn.add_pattern(xpat, [rng.choice([1.0, 0.0]), rng.choice([2.0, -1.0, 0.5]), 1.0])
+                        j.add_demand(extra, xpat, rng.choice([None, "cat"]))
+                        entries[nm].append((extra, list(wn.get_pattern(xpat).multipliers) if xpat else None))
                     ctx.count("sim_multi_demand_junction" + ("_first_zero" if j.demand_timeseries_list[0].base_value == 0 else ""))
                 own = (rng.choice([None, 1.0]), rng.choice([None, 12.0, 40.0]), rng.choice([None, 0.8, 1.0]))
                 j.minimum_pressure, j.required_pressure, j.pressure_exponent = own
@@ -492,6 +504,7 @@ class C07(Check):
                 if D_l == 0.0:
                     D_l = 0.004
                     jl.demand_timeseries_list[0].base_value = D_l
+                    entries[last][0] = (D_l, entries[last][0][1])
                 LS = wntr.network.LinkStatus
                 pipe = wn.get_link("P%d" % (nj - 1))
                 wn.add_control("iso_close", Control(SimTimeCondition(wn, "=", 3600), ControlAction(pipe, "status", LS.Closed)))
@@ -512,10 +525,11 @@ class C07(Check):
             for nm, cf in conf.items():
                 (pmin0, pnom0, e0), D0, el = cf[0], cf[1], cf[2]
                 change = cf[3] if len(cf) > 3 else None
-                mults = list(wn.get_pattern(cf[4]).multipliers) if len(cf) > 4 and cf[4] else None
                 for t in res.node["pressure"].index:
                     (pmin, pnom, e) = (pmin0, pnom0, e0)
-                    D = D0 * mults[(int(t) // 3600) % len(mults)] if mults else D0
+                    # requested demand at t: sum over the entries of base * pattern multiplier (pattern step 1 h, start 0)
+                    D = sum(b_ * (ml[(int(t) // 3600) % len(ml)] if ml else 1.0) for b_, ml in entries[nm])
+                    ctx.count("sim_requested:" + ("negative" if D < 0 else "zero" if D == 0 else "positive"))
                     if change is not None:
                         if 3600 <= t < change[0]:
                             continue  # cut off from every source: reported as zero (C09), not on the curve
@@ -596,8 +610,9 @@ class C07(Check):
         for gl, own in combos:
             pmin, pnom, e = eff(own, gl)
             de = min(delta, (pnom - pmin) / 2.0)
-            targets = [pmin - 0.5, pmin, pmin + de / 2, pmin + de, (pmin + pnom) / 2, pnom - de, pnom - de / 2, pnom, pnom + 0.5, pmin + de / 2]
-            Ds = [0.03] * 9 + [0.0]
+            targets = [pmin - 0.5, pmin, pmin + de / 2, pmin + de, (pmin + pnom) / 2, pnom - de, pnom - de / 2, pnom, pnom + 0.5, pmin + de / 2,
+                       (pmin + pnom) / 2, pnom - de / 2, pnom + 0.5]
+            Ds = [0.03] * 9 + [0.0] + [-0.02] * 3   # the last three: NEGATIVE requested demand (an inflow junction): D*f(p) < 0
             juncs = [{"own": own, "D": D, "elev": H - tp} for tp, D in zip(targets, Ds)]
             try:
                 for _pass in range(3):
@@ -626,6 +641,8 @@ class C07(Check):
         # ... and changes after which the (unchanged) pressure lies INSIDE the new upper / lower smoothing band, where the
         # smoothing cubics (not only Pmin / Preq themselves) must have been recomputed
         changes += [("required_pressure", "p+"), ("minimum_pressure", "p-")]
+        # ... and the junction's ELEVATION: the row's pressure is head - m.elevation[j], the reported one head - node.elevation
+        changes += [("elevation", 2.5), ("elevation", -1.5)]
         gl = (1.0, 18.0, 0.5)
         for attr, val in changes:
             for own in ((None, None, None), (0.0, 15.0, 0.7)):
@@ -642,6 +659,8 @@ class C07(Check):
                     val = p0 + 0.02 if val == "p+" else p0 - 0.02
                     ctx.count("directed_sim_param_control_into_band:" + attr)
                 wn = self._star(wntr, gl, juncs, H, duration=3 * 3600)
+                if attr == "elevation":
+                    val = juncs[0]["elev"] + val   # the junction stays between Pmin and Preq
                 wn.add_control("chg", Control(SimTimeCondition(wn, "=", 3600), ControlAction(wn.get_node("J0"), attr, val)))
                 try:
                     res = wntr.sim.WNTRSimulator(wn).run_sim()
@@ -649,7 +668,8 @@ class C07(Check):
                     ctx.count("directed_sim_error:" + type(ex).__name__)
                     continue
                 ctx.count("directed_sim_param_control:" + attr)
-                new = {"minimum_pressure": (val, pnom, e), "required_pressure": (pmin, val, e), "pressure_exponent": (pmin, pnom, val)}[attr]
+                new = {"minimum_pressure": (val, pnom, e), "required_pressure": (pmin, val, e), "pressure_exponent": (pmin, pnom, val),
+                       "elevation": (pmin, pnom, e)}[attr]
                 for t in res.node["pressure"].index:
                     for k, nm in enumerate(("J0", "J1")):
                         cur = (new if t >= 3600 else (pmin, pnom, e)) if k == 0 else gl
@@ -731,7 +751,10 @@ class C07(Check):
         case = {"glob": tuple(rp["glob"]), "specs": [{"own": tuple(rp["own"]), "D": rp["D"], "elev": rp["elev"]}]}
         if rp.get("change"):
             # the recorded own values are those AFTER the change; start from the global ones and re-apply it
-            case["specs"][0]["own"] = (None, None, None)
+            if rp["change"]["attr"] == "elevation":
+                case["specs"][0]["elev"] = rp["elev"] - 1.0
+            else:
+                case["specs"][0]["own"] = (None, None, None)
             case["change"] = dict(rp["change"], node=0)
         fs, bs = self._run_cases(ctx, wntr, [case], 40, narrow=(rp.get("cls") == "narrow"))
         hit = [f for f in fs if f.key == r.get("key")]
